@@ -236,3 +236,39 @@ func vGo(f func()) {
 }
 
 func vJoin() { vWG.Wait() }
+
+// vNativeStress does nothing under the executor. Natively (replay of a race or of an
+// interleaving-dependent result) it hammers the given checks from many goroutines so that a real
+// interference has a chance to show: each f reports whether its call still returns its solo result.
+var vStressDone bool
+
+func vNativeStress(label string, fs ...func() bool) {
+	if os.Getenv("VERIF_REPEAT") == "" || vStressDone {
+		return
+	}
+	vStressDone = true // once per process, not once per repetition
+	var wg sync.WaitGroup
+	var mu sync.Mutex
+	bad := false
+	for g := 0; g < 8; g++ {
+		for _, f := range fs {
+			f := f
+			wg.Add(1)
+			go func() {
+				defer wg.Done()
+				for i := 0; i < 3000; i++ {
+					if !f() {
+						mu.Lock()
+						bad = true
+						mu.Unlock()
+						return
+					}
+				}
+			}()
+		}
+	}
+	wg.Wait()
+	if bad {
+		vFailed = append(vFailed, label)
+	}
+}
